@@ -106,10 +106,18 @@ class Query:
         self.qf = 'forall' not in self.smt2 and 'exists' not in self.smt2
 
 
-def _run_z3_api(smt2, timeout_ms, want_model):
+# parameter variations tried (in this order) when the default configuration answers `unknown`: quantifier
+# instantiation is heuristic, and a query that times out under one configuration is often immediate under another
+VARIANTS = [{'smt.mbqi': False}, {'smt.random_seed': 7}, {'smt.mbqi': False, 'smt.random_seed': 3},
+            {'smt.qi.eager_threshold': 100.0, 'smt.random_seed': 11}, {'smt.arith.solver': 2, 'smt.mbqi': False}]
+
+
+def _run_z3_api(smt2, timeout_ms, want_model, params=None):
     ctx = z3.Context()
     s = z3.Solver(ctx=ctx)
     s.set('timeout', timeout_ms)
+    for k, v in (params or {}).items():
+        s.set(k, v)
     s.from_string(smt2)
     t0 = time.time()
     r = s.check()
@@ -150,6 +158,15 @@ def discharge_one(args):
     trail.append(('z3-%s' % z3.get_version_string(), res, round(secs, 3)))
     if res in ('unsat', 'sat') or not portfolio:
         return name, res, trail, model, reason
+    # same solver, other heuristics
+    for vi, params in enumerate(VARIANTS):
+        try:
+            res2, secs, model2, reason2 = _run_z3_api(smt2, int(budget_s * 1000), want_model, params)
+        except Exception as e:
+            res2, secs, model2, reason2 = 'error', 0.0, None, repr(e)
+        trail.append(('z3-%s/v%d' % (z3.get_version_string(), vi + 1), res2, round(secs, 3)))
+        if res2 in ('unsat', 'sat'):
+            return name, res2, trail, model2, reason2
     # portfolio on unknown / timeout
     if shutil.which('/usr/bin/z3'):
         out, secs = _run_cli(['/usr/bin/z3', '-T:%d' % int(budget_s * 3)], smt2, budget_s * 3 + 5)
